@@ -29,7 +29,7 @@ func scenarioC05(rc *RunCtx) {
 	pf.FatalPct = 80
 	pf.FailCondEasy = t.Chance("pf.easy", 60) // overlapping conditions: candidates can slip from one site to another
 	prog := GenProg(t, pf)
-	if t.Chance("c05.template", 35) {
+	if t.Chance("c05.template", 50) {
 		prog = c05Template(t)
 	}
 	fl := genFlags(t, 30)
